@@ -253,8 +253,10 @@ func gen(c *core.Ctx) error {
 				su = ss.Setup{Kind: "blobs", Key: key, CtrBA: start, FinBA: true, CtrAB: 2, FinAB: true}
 			}
 			var steps []ss.Step
-			for i := 0; i < 6; i++ {
-				steps = append(steps, phase(bdir, "complete", direct(3+i)))
+			for i := 0; i < 8; i++ {
+				st := phase(bdir, "complete", direct(3+i))
+				st.SoftFail = true // after a refused send the reader finds nothing: the case goes on
+				steps = append(steps, st)
 			}
 			d := &desc{Case: ss.Case{Setup: su, Steps: steps}, Note: fmt.Sprintf("counter from %#x", start)}
 			obs, term := ss.Exec(&d.Case)
